@@ -53,6 +53,7 @@ class Gen:
         self.next_k = 0
         self.listeners = {}    # l -> (slot, active, weak)
         self.lazies = []
+        self.lazy_src = {}     # lazy -> cell it was sampled from (a value dependency of whatever starts from it)
         self.depth = 0
         self.aliases = {}
 
@@ -182,7 +183,9 @@ class Gen:
             if s is None:
                 return False
             z = self.new_lazy()
-            self.add(self.new_h(), "C", "int", [s], "hold_lazy %d %d %d" % (h, s, z))
+            h = self.next_h
+            self.add(self.new_h(), "C", "int", [s] + ([self.lazy_src[z]] if z in self.lazy_src else []),
+                     "hold_lazy %d %d %d" % (h, s, z))
         elif k == "updates":
             c = Cc()
             if c is None:
@@ -214,7 +217,9 @@ class Gen:
             if s is None:
                 return False
             z = self.new_lazy()
-            self.add(self.new_h(), "C", "int", [s], "accum_lazy %d %d %d %s" % (h, s, z, r.choice(F2)))
+            h = self.next_h
+            self.add(self.new_h(), "C", "int", [s] + ([self.lazy_src[z]] if z in self.lazy_src else []),
+                     "accum_lazy %d %d %d %s" % (h, s, z, r.choice(F2)))
         elif k == "collect":
             s = S()
             if s is None:
@@ -317,6 +322,7 @@ class Gen:
                 self.next_z += 1
                 self.emit("sample_lazy %d %d" % (z, c))
                 self.lazies.append(z)
+                self.lazy_src[z] = c
                 return z
         if x < 0.55 and self.lazies:
             return self.r.choice(self.lazies)
@@ -396,13 +402,20 @@ class Gen:
                 self.next_z += 1
                 self.emit("sample_lazy %d %d" % (z, c))
                 self.lazies.append(z)
+                self.lazy_src[z] = c
         elif x < 0.8:
-            self.emit("force %d" % r.choice(self.lazies))
+            z = r.choice(self.lazies)
+            # forcing inside the block that is still building a loop may read the unclosed loop
+            if not (self.depth > 0 and z in self.lazy_src and any(i.role == "cloop" for i in self.o.values())):
+                self.emit("force %d" % z)
         else:
             z = self.next_z
             self.next_z += 1
-            self.emit("clone_lazy %d %d" % (r.choice(self.lazies), z))
+            z0 = r.choice(self.lazies)
+            self.emit("clone_lazy %d %d" % (z0, z))
             self.lazies.append(z)
+            if z0 in self.lazy_src:
+                self.lazy_src[z] = self.lazy_src[z0]
 
     def gen_mem(self):
         r = self.r
@@ -627,3 +640,38 @@ def is_K3_leak(lines):
     first sampled or updated its initial thunk holds the outer cell, a reference no tracer reports"""
     d, sel_of = analyze(lines)
     return any(v["op"] == "switch_c" and full_reach(d, sel_of, v["outer"], h) for h, v in d.items())
+
+
+def is_K3_lazy(lines):
+    """a Lazy is taken (sample_lazy) from a cell whose value is computed from a switch_c result: until that result
+    is first updated or sampled, its initial thunk reads the inner cell at force time"""
+    d, sel_of = analyze(lines)
+
+    def cell_reach(a, seen=None):
+        seen = seen if seen is not None else set()
+        if a in seen or a not in d:
+            return False
+        seen.add(a)
+        v = d[a]
+        if v["op"] == "switch_c":
+            return True
+        if v["op"] in ("map_c", "lift", "cloop", "hold_lazy", "accum_lazy"):
+            return any(cell_reach(x, seen) for x in v["deps"]) or any(cell_reach(x, seen) for x in v.get("lz", []))
+        return False
+    alias = {}
+    lazy_src = {}
+    for l in lines:
+        w = l.split()
+        if not w:
+            continue
+        if w[0] == "clone":
+            alias[int(w[2])] = alias.get(int(w[1]), int(w[1]))
+        if w[0] == "sample_lazy":
+            c = int(w[2]); c = alias.get(c, c)
+            lazy_src[int(w[1])] = c
+        if w[0] == "clone_lazy" and int(w[1]) in lazy_src:
+            lazy_src[int(w[2])] = lazy_src[int(w[1])]
+        if w[0] in ("hold_lazy", "accum_lazy", "collect_lazy") and int(w[3]) in lazy_src:
+            # the held cell starts from that lazy: taking a lazy from it inherits the problem
+            d.setdefault(int(w[1]), dict(op=w[0], deps=[]))["lz"] = [lazy_src[int(w[3])]]
+    return any(cell_reach(c) for c in lazy_src.values())
